@@ -76,6 +76,13 @@ func TestC12(t *testing.T) {
 	if rec.Thorough() {
 		runtime.GOMAXPROCS([]int{16, 1, 2, 4}[shard%4])
 	}
+	// ---------------- cold error sites: the very first thing this process does with the library is to hit the
+	// refusing paths of encode and decode from several goroutines at the same moment (whatever the library
+	// caches or formats lazily the first time an error is built is invisible once warm)
+	c12ColdErrors(t, r)
+	if t.Failed() {
+		return
+	}
 	cfg := zoo.DefaultCfg()
 	cfg.MaxBig = 40
 	cfg.Budget = 300
@@ -149,6 +156,11 @@ func TestC12(t *testing.T) {
 				x.derr = errStr(err)
 			}
 		}
+		// ---- calls that fail, and calls on a stream of two messages (one-shot decode of the first, continuous
+		// read of the second): alone first, with the same maps
+		nReal := len(vals)
+		extras := c12Extras(vals[0], vals[1%len(vals)], tm, nm, rapid.IntRange(0, 1<<20).Draw(rt, "extraPick"))
+		withExtras := rapid.IntRange(0, 2).Draw(rt, "withFailingAndStreamCalls") != 0
 		nmBefore := copyNames(nm)
 		n := rapid.SampledFrom([]int{2, 4, 16, 64}).Draw(rt, "goroutines")
 		mode := rapid.SampledFrom([]string{"fresh-serializer", "serializer-pool", "encoder+decoder-pool", "fresh-encoder+decoder"}).Draw(rt, "instances")
@@ -158,6 +170,9 @@ func TestC12(t *testing.T) {
 			plan[g] = make([]int, ops)
 			for i := range plan[g] {
 				plan[g][i] = rapid.IntRange(0, len(vals)-1).Draw(rt, "pick")
+				if withExtras && rapid.IntRange(0, 3).Draw(rt, "extra") == 0 {
+					plan[g][i] = nReal + rapid.IntRange(0, len(extras)-1).Draw(rt, "pickExtra")
+				}
 			}
 		}
 		c.set("goroutines", n)
@@ -194,13 +209,27 @@ func TestC12(t *testing.T) {
 				}
 				<-start
 				for _, idx := range plan[g] {
-					x := vals[idx]
 					switch mode {
 					case "serializer-pool":
 						ser = sp.Get().(hessian.Serializer)
 					case "encoder+decoder-pool":
 						enc, dec = ep.Get().(*hessian.Encoder), dp.Get().(*hessian.Decoder)
 					}
+					if idx >= nReal {
+						if msg := extras[idx-nReal].run(ser, enc, dec); msg != "" {
+							firstErr.CompareAndSwap(nil, fmt.Sprintf("goroutine %d: %s", g, msg))
+							return
+						}
+						switch mode {
+						case "serializer-pool":
+							sp.Return(ser)
+						case "encoder+decoder-pool":
+							ep.Return(enc)
+							dp.Return(dec)
+						}
+						continue
+					}
+					x := vals[idx]
 					var b []byte
 					var err error
 					if ser != nil {
@@ -262,6 +291,9 @@ func TestC12(t *testing.T) {
 		}
 		r.Label(fmt.Sprintf("goroutines:%d", n))
 		r.Label("instances:" + mode)
+		if withExtras {
+			r.Label("plan includes failing calls and two-message streams")
+		}
 		r.Label(fmt.Sprintf("GOMAXPROCS:%d", runtime.GOMAXPROCS(0)))
 		r.Sample(func() interface{} {
 			return map[string]interface{}{"goroutines": n, "instances": mode, "ops_per_goroutine": ops, "values": descs}
@@ -330,7 +362,8 @@ func TestC12(t *testing.T) {
 					}
 				}()
 				atomic.AddInt32(&ready, 1)
-				for atomic.LoadInt32(&go_) == 0 { // spin barrier: start within nanoseconds of each other
+				for atomic.LoadInt32(&go_) == 0 { // spin barrier: start within microseconds of each other
+					runtime.Gosched() // never a bare spin: under the race detector it is not preemptible
 				}
 				b, err := hessian.NewEncoder(nil, nm).Encode(v)
 				if err != nil {
@@ -498,4 +531,213 @@ func (r *nestingReader) ReadRune() (rune, int, error) {
 		r.busy = false
 	}
 	return c, n, err
+}
+
+// ---------------------------------------------------------------------------
+// failing calls and two-message streams
+// ---------------------------------------------------------------------------
+
+// c12Extra is one call (or pair of calls) with the result it produced when run alone.
+type c12Extra struct {
+	what   string
+	encBad interface{} // encode of a value that is refused
+	decIn  []byte      // one-shot decode of these octets (garbage, or a stream of two messages)
+	second bool        // decIn holds two messages: one-shot decode, then one continuous read
+	err1   string
+	obj1   interface{}
+	err2   string
+	obj2   interface{}
+}
+
+func (x *c12Extra) alone(tm map[string]reflect.Type, nm map[string]string) bool {
+	s := hessian.NewSerializer(tm, nm)
+	var err error
+	pv, _ := guard(func() {
+		if x.decIn == nil {
+			_, err = s.ToBytes(x.encBad)
+			x.err1 = errStr(err)
+			return
+		}
+		x.obj1, err = s.ToObject(x.decIn)
+		x.err1 = errStr(err)
+		if x.second {
+			x.obj2, err = s.Read()
+			x.err2 = errStr(err)
+		}
+	})
+	return pv == nil
+}
+
+// run performs the call on the goroutine's own instance and compares with the result obtained alone.
+func (x *c12Extra) run(ser hessian.Serializer, enc *hessian.Encoder, dec *hessian.Decoder) string {
+	if x.decIn == nil {
+		var err error
+		if ser != nil {
+			_, err = ser.ToBytes(x.encBad)
+		} else {
+			_, err = enc.Encode(x.encBad)
+		}
+		if errStr(err) != x.err1 {
+			return fmt.Sprintf("%s returned error %v, alone it returned %q", x.what, err, x.err1)
+		}
+		return ""
+	}
+	var o1, o2 interface{}
+	var e1, e2 error
+	if ser != nil {
+		o1, e1 = ser.ToObject(x.decIn)
+		if x.second {
+			o2, e2 = ser.Read()
+		}
+	} else {
+		o1, e1 = dec.Decode(x.decIn)
+		if x.second {
+			o2, e2 = dec.ReadObject()
+		}
+	}
+	if errStr(e1) != x.err1 {
+		return fmt.Sprintf("%s returned error %v, alone it returned %q", x.what, e1, x.err1)
+	}
+	if e1 == nil {
+		if cerr := vcmp.EqualValues(x.obj1, o1); cerr != nil {
+			return fmt.Sprintf("%s differs from the result of the same call run alone: %v", x.what, cerr)
+		}
+	}
+	if x.second {
+		if errStr(e2) != x.err2 {
+			return fmt.Sprintf("%s: the continuous read of the second message returned error %v, alone it returned %q", x.what, e2, x.err2)
+		}
+		if e2 == nil {
+			if cerr := vcmp.EqualValues(x.obj2, o2); cerr != nil {
+				return fmt.Sprintf("%s: the continuous read of the second message differs from the same call run alone: %v", x.what, cerr)
+			}
+		}
+	}
+	return ""
+}
+
+var c12BadValues = []struct {
+	what string
+	v    func() interface{}
+}{
+	{"encode of a list holding a channel", func() interface{} { return []interface{}{int32(1), make(chan int), "x"} }},
+	{"encode of a struct whose Go int field is beyond 32 bits", func() interface{} { return &zoo.IntFields{I8: 1, I: 1 << 40} }},
+	{"encode of a map holding a complex number", func() interface{} { return map[string]interface{}{"k": complex(1, 2)} }},
+	{"encode of a function", func() interface{} { return func() {} }},
+	{"encode of a []int with an element beyond 32 bits", func() interface{} { return []int{1, -1 << 40} }},
+}
+
+// c12Extras builds the extra calls for one case and runs each alone.
+func c12Extras(a, b *c12Value, tm map[string]reflect.Type, nm map[string]string, pick int) []*c12Extra {
+	var out []*c12Extra
+	for _, bv := range c12BadValues {
+		out = append(out, &c12Extra{what: bv.what, encBad: bv.v()})
+	}
+	garbage := c14Fixed()
+	small := garbage[:len(garbage)-6]
+	for i := 0; i < 4; i++ {
+		gb := small[(pick+i*7)%len(small)]
+		out = append(out, &c12Extra{what: "decode of " + hexClip(gb, 24), decIn: gb})
+	}
+	if len(a.bytes) > 2 {
+		out = append(out, &c12Extra{what: "decode of a truncated message", decIn: a.bytes[:len(a.bytes)/2]})
+	}
+	// a stream of two messages written through one encoder
+	for _, pr := range [][2]*c12Value{{a, b}, {b, a}} {
+		var buf bytes.Buffer
+		e := hessian.NewEncoder(nil, copyNames(nm))
+		if pv, _ := guard(func() {
+			if e.WriteTo(&buf, pr[0].v) != nil || e.WriteObject(pr[1].v) != nil {
+				buf.Reset()
+			}
+		}); pv == nil && buf.Len() > 0 {
+			out = append(out, &c12Extra{what: "one-shot decode of the first of two messages (" + pr[0].desc + ")", decIn: append([]byte{}, buf.Bytes()...), second: true})
+		}
+	}
+	keep := out[:0]
+	for _, x := range out {
+		if x.alone(tm, nm) {
+			keep = append(keep, x)
+		}
+	}
+	return keep
+}
+
+// c12ColdErrors: several goroutines, each with instances of its own, hit every refusing path for the first time
+// in this process at the same moment; every call must return what it returns alone (afterwards, warm).
+func c12ColdErrors(t *testing.T, r *rec.Rec) {
+	c14InitMaps()
+	garbage := c14Fixed()
+	small := garbage[:len(garbage)-6]
+	n := 8
+	type res struct{ enc, dec []string }
+	results := make([]res, n)
+	var ready, goFlag int32
+	var wg sync.WaitGroup
+	var panicked atomic.Value
+	doAll := func(out *res, rot int) {
+		for i := range c12BadValues {
+			bv := c12BadValues[(i+rot)%len(c12BadValues)]
+			_, err := hessian.NewEncoder(nil, nil).Encode(bv.v())
+			out.enc = append(out.enc, fmt.Sprintf("%d:%s", (i+rot)%len(c12BadValues), errStr(err)))
+		}
+		for i := range small {
+			j := (i + rot*5) % len(small)
+			for k := 0; k < 2; k++ {
+				_, err := hessian.NewDecoder(nil, c14Maps[k]).Decode(small[j])
+				out.dec = append(out.dec, fmt.Sprintf("%d/%d:%s", j, k, errStr(err)))
+			}
+		}
+	}
+	for g := 0; g < n; g++ {
+		wg.Add(1)
+		go func(g int) {
+			defer wg.Done()
+			defer func() {
+				if p := recover(); p != nil {
+					panicked.CompareAndSwap(nil, fmt.Sprintf("goroutine %d panicked: %v", g, p))
+				}
+			}()
+			atomic.AddInt32(&ready, 1)
+			for atomic.LoadInt32(&goFlag) == 0 {
+				runtime.Gosched()
+			}
+			doAll(&results[g], g)
+		}(g)
+	}
+	for atomic.LoadInt32(&ready) < int32(n) {
+		runtime.Gosched()
+	}
+	atomic.StoreInt32(&goFlag, 1)
+	wg.Wait()
+	if p := panicked.Load(); p != nil {
+		directFail(t, "C12", map[string]interface{}{"phase": "cold-error-sites", "goroutines": n}, "C12 %d goroutines hitting the refusing paths for the first time: %v", n, p)
+		return
+	}
+	var alone res
+	doAll(&alone, 0)
+	want := map[string]bool{}
+	for _, s := range alone.enc {
+		want["e"+s] = true
+	}
+	for _, s := range alone.dec {
+		want["d"+s] = true
+	}
+	for g := 0; g < n; g++ {
+		for _, s := range results[g].enc {
+			if !want["e"+s] {
+				directFail(t, "C12", map[string]interface{}{"phase": "cold-error-sites", "goroutines": n}, "C12 first concurrent use of a refusing encode path: goroutine %d got %q for %s, alone the call returns otherwise", g, s, c12BadValues[0].what)
+				return
+			}
+		}
+		for _, s := range results[g].dec {
+			if !want["d"+s] {
+				directFail(t, "C12", map[string]interface{}{"phase": "cold-error-sites", "goroutines": n}, "C12 first concurrent use of a refusing decode path: goroutine %d got %q (input/typemap:result), alone the call returns otherwise", g, s)
+				return
+			}
+		}
+	}
+	r.EvalN(int64(n * (len(c12BadValues) + 2*len(small))))
+	r.NonTrivial(av.Hash("cold-error-sites"))
+	r.Label("cold-start:first-concurrent-use-of-the-refusing-paths")
 }
